@@ -27,6 +27,7 @@ const modPath = "github.com/textwire/textwire/v2"
 // Model is the type-checked, SSA-lowered program plus the facts extracted
 // from it. It is rebuilt from /repo's working tree on every run.
 type Model struct {
+	resRange       map[any][2]bool // resultRange memo
 	lookupTableAt  map[*ssa.Parameter]ssa.Value
 	ifCaseRes      *ifCaseResult
 	errNodes       map[string]bool
